@@ -52,6 +52,13 @@ def handbuilt():
     m.add_func('i', 'I', (), local_get(0) + atomic(0x11, 3, 8) + local_get(0) + i64_const(1) + atomic(0x1f, 3, 0) + op(0x7c), export='at')
     m.datas.append(('active2', 0, i32_const(0), b'abc'))
     mods.append(('hand-atomics-flag2', m.encode()))
+    # a module whose name section matters under -g: two NON-exported functions with debug names (only those get a debug symbol)
+    m = Module()
+    fa = m.add_func('i', 'i', (), local_get(0) + i32_const(3) + op(0x6c))
+    fb = m.add_func('i', 'i', (), local_get(0) + i32_const(1) + op(0x6a))
+    m.add_func('i', 'i', (), local_get(0) + call(fa) + call(fb), export='run')
+    m.names = {fa: 'alpha', fb: 'beta', 2: 'run'}
+    mods.append(('hand-names', m.encode()))
     return mods
 
 
@@ -110,6 +117,20 @@ def deviations(data, tier, pairs=False):
                 cs.sized.children[0].length = nlen
             s2 = secs[:pos] + [cs] + secs[pos:]
             yield ('custom', 'custom section with %s at boundary %d' % (what, pos), (lambda s2=s2: wp.emit(hdr, s2)))
+    # the real name section with ADDITIONAL subsections behind the existing ones: ids the translator knows but does not use (2 locals ... 9)
+    # and ids it does not know (10 field names, 11 tag names, 0x7f), non-empty payloads that look like name maps
+    for k, s_ in enumerate(secs):
+        if s_.id != 0:
+            continue
+        body = b''.join(c.emit() for c in s_.sized.children)
+        if body[:5] != b'\x04name':
+            continue
+        payload = body[5:]
+        for sid in (2, 9, 10, 11, 0x7f):
+            for extra in (b'\x01\x00\x03uno', b'\x02\x00\x01a\x01\x01b'):
+                sub = bytes([sid, len(extra)]) + extra
+                s2 = secs[:k] + [wp.custom_section('name', payload + sub)] + secs[k + 1:]
+                yield ('namesub', 'name section with an extra subsection id %d (%d bytes) appended' % (sid, len(extra)), (lambda s2=s2: wp.emit(hdr, s2)))
     # data segments: flag 0 <-> flag 2 + memory index 0
     for s in secs:
         if s.id == 11:
@@ -252,7 +273,7 @@ def work(job):
                     what = 'different C definitions, e.g. %r' % (dh[0][:160] if dh else 'missing definitions')
                 # with -g the translator reads the custom section called exactly "name" (and .debug_* sections): any OTHER inserted
                 # custom section must leave the -g output unchanged as well
-                if what is None and kind == 'custom' and "custom section 'name' " not in desc and '.debug_' not in desc:
+                if what is None and (kind == 'namesub' or kind == 'custom' and "custom section 'name' " not in desc and '.debug_' not in desc):
                     if base_g is None:
                         base_g = translate_file(w2c2, wd, data, ('-g',))
                         res['runs'] += 1
@@ -278,8 +299,9 @@ def main(tier):
         r = json.load(open(sys.argv[2]))
         w2c2 = build_w2c2('plain')
         wd = scratch('c08r')
-        rc0, e0, base = translate_file(w2c2, wd, bytes.fromhex(r['base_hex']))
-        rc1, e1, out = translate_file(w2c2, wd, bytes.fromhex(r['variant_hex']))
+        ga = ('-g',) if str(r.get('what', '')).startswith('with -g') else ()
+        rc0, e0, base = translate_file(w2c2, wd, bytes.fromhex(r['base_hex']), ga)
+        rc1, e1, out = translate_file(w2c2, wd, bytes.fromhex(r['variant_hex']), ga)
         print('base rc=%d variant rc=%d %s same=%s' % (rc0, rc1, e1, out == base))
         bad = rc1 != 0 or out != base
         print('REPLAY: %s' % ('violation reproduced' if bad else 'case passes on the current tree'))
